@@ -16,16 +16,31 @@ import threading
 import types
 
 
+CHUNK = 4096  # Disk._page_in copies in chunks of this size
+NCHUNKS = 3
+
+
+class Chunk:
+    """One chunk read from a spill file: CHUNK bytes standing behind one (possibly symbolic) token."""
+
+    def __init__(self, token):
+        self.token = token
+
+    def __len__(self):
+        return CHUNK
+
+
 class Buf:
-    """Segment/file content: declared size and the first few bytes (ints, possibly symbolic)."""
+    """Segment/file content: declared size and NCHUNKS chunk tokens (ints, possibly symbolic), i.e. a dataset is modelled
+    as three 4096-byte blocks; `data[k]` stands for the bytes at offset k*CHUNK."""
 
     def __init__(self, size, data=None):
         self.size = size
-        self.data = list(data) if data is not None else [0, 0]
+        self.data = list(data) if data is not None else [0] * NCHUNKS
+        self.corrupt = False
 
     def __len__(self):
-        # only used by `l = len(b); if not l: break` in Disk._page_in
-        return 0 if self is EMPTY else 1
+        return 0 if self is EMPTY else CHUNK * NCHUNKS
 
     def __getitem__(self, sl):
         return Buf(self.size, self.data)
@@ -33,6 +48,12 @@ class Buf:
     def __setitem__(self, sl, value):
         if isinstance(value, Buf):
             self.data = list(value.data)
+        elif isinstance(value, Chunk):
+            start = sl.start or 0
+            if start % CHUNK != 0 or not (0 <= start // CHUNK < NCHUNKS) or (sl.stop - start) != CHUNK:
+                self.corrupt = True  # a chunk written at a wrong offset
+            else:
+                self.data[start // CHUNK] = value.token
         else:
             raise TypeError("unexpected write into fake segment")
 
@@ -47,6 +68,7 @@ class World:
         self.segs: dict[str, Buf] = {}
         self.files: dict[str, Buf] = {}
         self.now = 0
+        self.boot_offset = 0
         self.uid = 0
         self.unlinked: list[str] = []
         self.fail_file_io: set[str] = set()  # paths whose open() raises OSError
@@ -99,7 +121,7 @@ class FakeSharedMemory:
 class _FakeFile:
     def __init__(self, path, mode):
         self.path, self.mode = path, mode
-        self.read_done = False
+        self.pos = 0
 
     def __enter__(self):
         return self
@@ -111,10 +133,19 @@ class _FakeFile:
         WORLD.files[self.path] = Buf(b.size, b.data)
 
     def read(self, n=-1):
-        if self.read_done:
+        f = WORLD.files[self.path]
+        if n is None or n < 0:
+            if self.pos:
+                return EMPTY
+            self.pos = NCHUNKS
+            return f
+        if n != CHUNK:
+            raise OSError(f"fake file supports chunked reads of {CHUNK} bytes only (asked for {n})")
+        if self.pos >= NCHUNKS:
             return EMPTY
-        self.read_done = True
-        return WORLD.files[self.path]
+        c = Chunk(f.data[self.pos])
+        self.pos += 1
+        return c
 
 
 def fake_open(path, mode="r", *a, **k):
@@ -191,7 +222,9 @@ def install():
     disk.multiprocessing = types.SimpleNamespace(
         resource_tracker=types.SimpleNamespace(unregister=lambda *a, **k: None)
     )
-    dataset.time = types.SimpleNamespace(time_ns=lambda: WORLD.now)
+    # wall clock and monotonic clock are different clocks: they differ by an arbitrary (large) boot offset
+    dataset.time = types.SimpleNamespace(time_ns=lambda: WORLD.now, monotonic_ns=lambda: WORLD.now - WORLD.boot_offset,
+                                         time=lambda: WORLD.now / 1e9)
 
     class _U:
         def __init__(self, n):
@@ -210,7 +243,7 @@ def install():
     repo_env.STUBS_IN_FORCE.extend(
         [
             "FakeSharedMemory registry replaces multiprocessing.shared_memory.SharedMemory (POSIX name semantics)",
-            "in-memory open() for cascade.shm.disk; content model = (declared size, first 2 bytes), single-chunk read",
+            "in-memory open() for cascade.shm.disk; content model = (declared size, three 4096-byte chunks each standing behind one token), chunked reads",
             "DeferredPool replaces Disk.readers/writers: a job runs atomically when the harness picks it",
             "clock: cascade.shm.dataset.time.time_ns returns the harness' solver-chosen non-decreasing instant",
             "uuid4 -> unique counter-based reader ids",
